@@ -44,6 +44,12 @@ func genC08(r *Rnd, t Tier) *Case {
 		kinds = append(kinds, pick(r, KFallback, KBreaker, KBulkhead, KLimiter, KFallback, KRetry))
 	}
 	shuffle(r, kinds)
+	bystander := src != SrcTimeout && r.P(0.25)
+	if bystander {
+		// a Timeout that never fires: it only adds its cancellable execution copy at some depth
+		at := r.Intn(len(kinds) + 1)
+		kinds = append(kinds[:at:at], append([]string{KTimeout}, kinds[at:]...)...)
+	}
 	if src == SrcTimeout {
 		// the Timeout encloses the retry/hedge: put it outermost, or just inside a fallback
 		kinds = append([]string{KTimeout}, kinds...)
@@ -73,6 +79,9 @@ func genC08(r *Rnd, t Tier) *Case {
 			p = genLimiter(r, unit)
 		case KTimeout:
 			p = genTimeout(r, unit)
+			if bystander {
+				p.Limit = time.Duration(r.Range(20, 60)) * 1000 * unit
+			}
 		}
 		sc.Policies = append(sc.Policies, p)
 		stack = append(stack, len(sc.Policies)-1)
